@@ -62,6 +62,7 @@ from mc import ref
 
 PROPERTY = 'C17'
 GUARD = ['numqi.utils', 'numqi.dicke']  # argument-immutability oracle (mc.seams.ImmutabilityGuard)
+GUARD_LAYOUT = ['numqi.utils', 'numqi.dicke']  # memory-layout metamorphic oracle (same wrapper)
 LEVEL = 'model_checking'
 RULE = ('mode B: case = one dimension list (x a block of keep-subsets) or one (dimA,dimB,k) (x a block of the polarisation '
         'alphabet); inside a case the complete basis alphabet is executed on the real function: all weighted matrix units x all '
